@@ -1,6 +1,6 @@
 (* P_C09.v -- C09: generic interfaces keep their type parameters, constraints and instances. *)
 From Moq Require Import Strs Strs_Proofs GoTypes TypeString VarName Registry Scope Gen P_C20 P_C02.
-From Moq Require Import TmplAst.
+From Moq Require Import TmplAst WellScoped.
 From Moq.gen Require Import Tables TemplateSrc.
 Local Open Scope string_scope.
 
@@ -72,9 +72,21 @@ Definition no_exported_tparam (ns : list tnode) : bool :=
 Theorem C09_tparam_names_verbatim : no_exported_tparam moq_template = true.
 Proof. vm_compute. reflexivity. Qed.
 
-(* the self-check uses the constraint itself as type argument when there is no explicit one:
-   for comparable this is not a valid type argument (finding D9) *)
+(* since the repair of D9a a constraint that is comparable and has no methods gets int *)
+Theorem C09_comparable_fixed :
+  forall name c embeds, explicit_constraint embeds = None ->
+    explicit_constraint_tp (mkTparam name c embeds true) = Some (TBasic "int" KInt false).
+Proof. intros name c embeds E. unfold explicit_constraint_tp. cbn [tp_under_embeds tp_plain_comparable]. rewrite E. reflexivity. Qed.
+
+(* an explicit basic type or union term still wins, whatever the flag says *)
+Theorem C09_explicit_wins :
+  forall name c embeds b t, explicit_constraint embeds = Some t ->
+    explicit_constraint_tp (mkTparam name c embeds b) = Some t.
+Proof. intros name c embeds b t E. unfold explicit_constraint_tp. cbn [tp_under_embeds]. rewrite E. reflexivity. Qed.
+
+(* what remains of D9: a constraint with methods (or one that mentions its own type parameter)
+   is used as its own type argument *)
 Example C09_selfcheck_refuted :
-  type_string (fun p => p_path p) (TNamed None "comparable" []) = "comparable" /\
-  explicit_constraint [] = None.
+  explicit_constraint_tp (mkTparam "T" (TNamed None "Hasher" []) [TNamed None "comparable" []] false) = None /\
+  instantiable (mkTparam "T" (TNamed None "Hasher" []) [TNamed None "comparable" []] false) = false.
 Proof. vm_compute. split; reflexivity. Qed.
